@@ -190,4 +190,28 @@ var specs = map[string]*propSpec{
 		Floor:       map[string]int{"quick": 2000, "thorough": 5000},
 		Phases:      mainPhase,
 	},
+	"C17": {
+		ID: "C17",
+		Rule: "case idx -> one invocation of the freshly built cmd/gmars: flag vector over -s -p -c -l -8 -preset (all six names; half of them with -s/-c added, which must be ignored) -F -r with core size >= 3*length+1, 1/8 single-warrior, fixed placement 2/3 (any position in 1..s-1, boundary values favoured) or random placement; " +
+			"warrior files are written by the harness from by-construction programs (generator of C03/C08 rendered with random layout) and from hand-made warriors with a known fate (imp, dwarf, instant death, slow death after ~50/3000/24000/40000 cycles, process-queue filler, ...); cases 0..6 pin every preset with a slow-dying warrior against one that sits still. " +
+			"Process monitor: exit status 0, empty stderr, exactly the expected number of 'wins ties' lines; fixed placement: the lines equal rounds x the outcome of the reference MARS run on the by-construction meanings under the configuration the options describe (preset table written from the README); random placement: wins1+wins2+ties == rounds and ties1 == ties2. " +
+			"non-trivial = decided (non-tie) battle or non-default flag set; distinct by (flag set, outcome)",
+		Assumptions: append([]string{
+			"the options describe: read/write limits equal to the core size, minimum distance equal to the maximum length; preset values as documented in the README table",
+			"a 120 s wall-clock limit per CLI invocation only produces an INCONCLUSIVE line, never a verdict"}, commonAssumptions...),
+		Floor:   map[string]int{"quick": 30, "thorough": 100},
+		Phases:  mainPhase,
+		NeedCLI: true,
+	},
+	"C14": {
+		ID: "C14",
+		Rule: "case idx -> one round: (1) aliasing monitor: snapshot the caller's WarriorData, AddWarrior, scribble over the caller's Code/Start/Name/Author, spawn, and compare the battle (core, queues, after spawning and after Run) with the reference battle of the data as it was when added; afterwards the caller's data must be exactly what the caller wrote; " +
+			"(2) 8..48 jobs {assemble valid / hostile / FOR-heavy / EQU-heavy (incl. several undefined symbols) text, load a perturbed load file, build a simulator + add SHARED *WarriorData + spawn + Run}, the first three texts repeated 20x, each job first run alone, then all of them on 1..32 goroutines under GOMAXPROCS in {1,2,4,16}; every concurrent result (error?, WarriorData / survivors, cycle count, core hash, queues) must equal the sequential one and the shared WarriorData must be unchanged. " +
+			"The race phase runs the same rounds on a -race build (halt_on_error=0, log_path); race reports are counted from the log files and de-duplicated by the functions on top of the two stacks — any report is a violation. " +
+			"non-trivial = job that overlapped in time with a job of another kind (atomic in-flight gauges); distinct by (kind pair, GOMAXPROCS)",
+		Assumptions: append([]string{
+			"error MESSAGES are not compared (a message naming 'the first' undefined symbol may follow map order); sharing one Simulator between threads is not claimed by the property and not exercised; porcupine does not apply: there is no shared concurrent object whose operations could be linearized"}, commonAssumptions...),
+		Floor:  map[string]int{"quick": 20, "thorough": 60},
+		Phases: []phase{{Name: "main", Shards: 8}, {Name: "race", Race: true, Shards: 8}},
+	},
 }
